@@ -262,3 +262,35 @@ Proof.
 Qed.
 Lemma load_upd_other_block (m : mem) b (blk' : block) b' o : (b < length m)%nat -> b' <> b -> load (upd m b blk') b' o = load m b' o.
 Proof. intros H Hne. unfold load. rewrite mem_upd_other by assumption. reflexivity. Qed.
+
+(* ---- a block described as prefix ++ rest (a char array filled front to back) *)
+Lemma upd_upd {A} (l : list A) n x y : (n < length l)%nat -> upd (upd l n x) n y = upd l n y.
+Proof.
+  intro H. unfold upd.
+  rewrite firstn_app, firstn_firstn, Nat.min_id, firstn_length, Nat.min_l, Nat.sub_diag by lia. cbn [firstn].
+  rewrite app_nil_r. f_equal. f_equal.
+  rewrite skipn_app, firstn_length, Nat.min_l by lia.
+  rewrite (skipn_all2 (firstn n l)) by (rewrite firstn_length; lia).
+  replace (S n - n)%nat with 1%nat by lia. reflexivity.
+Qed.
+Lemma upd_self {A} (l : list A) n x : nth_error l n = Some x -> upd l n x = l.
+Proof.
+  revert n; induction l as [|a l IH]; intros n H; [destruct n; discriminate|].
+  destruct n as [|n]; [cbn in H; injection H as ->; reflexivity|].
+  unfold upd in *. cbn [firstn skipn app]. f_equal. apply IH. exact H.
+Qed.
+(* storing just behind the prefix extends the prefix by one cell *)
+Lemma upd_prefix {A} (pre l : list A) x : (length pre < length l)%nat ->
+  upd (pre ++ skipn (length pre) l) (length pre) x = (pre ++ [x]) ++ skipn (S (length pre)) l.
+Proof.
+  intro H. unfold upd. rewrite firstn_app, Nat.sub_diag, firstn_all. cbn [firstn]. rewrite app_nil_r, <- app_assoc.
+  f_equal. cbn [app]. f_equal.
+  rewrite skipn_app, (skipn_all2 pre) by lia. replace (S (length pre) - length pre)%nat with 1%nat by lia.
+  rewrite skipn_skipn. cbn [app]. f_equal. lia.
+Qed.
+Lemma load_prefix (m : mem) b (pre rest : block) o v : nth_error m b = Some (pre ++ rest) ->
+  nth_error pre o = Some v -> load m b (Z.of_nat o) = Ok v.
+Proof.
+  intros Hm Ho. unfold load. rewrite Hm. destruct (Z.ltb_spec (Z.of_nat o) 0); [lia|]. rewrite Nat2Z.id.
+  rewrite nth_error_app1 by (apply nth_error_Some; congruence). rewrite Ho. reflexivity.
+Qed.
